@@ -1127,6 +1127,46 @@ def check_symbols_not_split(ctx: Check, tree: Tree) -> None:
         ctx.ok("R-SYMSPLIT", "src/ampform", "no sp.symbols() call with interpolated text")
 
 
+def check_massless_rest_frame(ctx: Check, tree: Tree) -> None:
+    """R-RESTFRAME: the Wigner rotation of a final state is computed with a boost into THAT state's
+    rest frame (compute_wigner_rotation_matrix: BoostMatrix(NegativeMomentum(momenta[state_id]))).  A
+    massless state has no rest frame (beta = 1): the matrix, its Euler angles and the aligned
+    intensity are NaN at every event.  The alignment sums treat massless states specially (`mass ==
+    0.0` -> no helicity 0); the path that formulates the angles must know about them too."""
+    mod = "ampform.helicity.align.axisangle"
+    ds = tree.func(f"{mod}::AxisAngleAlignment.define_symbols")
+    target_q = "ampform.kinematics.angles::compute_wigner_rotation_matrix"
+    target = tree.func(target_q)
+    rest = None
+    trd = RD(target.node)
+    for n in walk_function(target.node):
+        if isinstance(n, ast.Call) and unparse(n.func).split(".")[-1] == "BoostMatrix" and n.args:
+            arg = n.args[0]
+            if isinstance(arg, ast.Call) and unparse(arg.func).split(".")[-1] == "NegativeMomentum" and arg.args:
+                inner = arg.args[0]
+                srcs = [inner] + [d.value for d in trd.reaching(inner) if d.value is not None] if isinstance(inner, ast.Name) else [inner]
+                if any(isinstance(x, ast.Subscript) and unparse(x.slice) == "state_id" for x in srcs):
+                    rest = n
+    if rest is None:
+        raise AnalysisError(f"{target_q}: the boost into the rest frame of the rotated state (BoostMatrix(NegativeMomentum(momenta[state_id]))) was not found")
+    graph = tree.call_graph()
+    down = tree.reachable(ds.qual, graph)
+    if target_q not in down:
+        raise AnalysisError("AxisAngleAlignment.define_symbols no longer reaches compute_wigner_rotation_matrix")
+    on_path = sorted(q for q in down if q in tree.funcs and target_q in tree.reachable(q, graph))
+
+    def mass_tests(q):
+        return [n for n in walk_function(tree.funcs[q].node) if isinstance(n, ast.Compare) and any(isinstance(x, ast.Attribute) and x.attr == "mass" for x in ast.walk(n))]
+
+    believers = sorted(q.split("::")[-1] for q in tree.funcs if q.startswith(mod + "::") and mass_tests(q))
+    guarded = [q for q in on_path if mass_tests(q)]
+    ctx.stats["functions_on_wigner_angle_path"] = len(on_path)
+    ctx.verdict(bool(guarded), "R-RESTFRAME", f"{ds.qual}::rest-frame-boost-of-massless-state", tree.loc(rest),
+                "the Wigner angles (boost into the rotated state's own rest frame) are formulated only for massive states, or massless states are handled on that path",
+                None if guarded else {"path": [q.split("::")[-1] for q in on_path], "no test of `.mass` on the path; functions of the same alignment that do special-case mass == 0": believers,
+                                      "why": "BoostMatrix of a light-like momentum has beta = 1, gamma = inf: alpha/beta/gamma are NaN for every event"})
+
+
 def run(ctx: Check, tree: Tree) -> None:
     ctx.decided += [
         "no `.remove(x)` reachable in the package can raise: each is dominated by a membership test, inside a handler, or covered by a recorded structural invariant (R-GUARD)",
@@ -1157,3 +1197,4 @@ def run(ctx: Check, tree: Tree) -> None:
     ctx.section(check_dpd_summand, ctx, tree)
     ctx.section(check_dpd_generator, ctx, tree)
     ctx.section(check_spin_range_not_cached_mutable, ctx, tree)
+    ctx.section(check_massless_rest_frame, ctx, tree)
